@@ -22,7 +22,9 @@ PY = "/venv/bin/python"
 
 def run(cmd, cwd, timeout=3600):
     t = time.time()
-    r = subprocess.run(cmd, cwd=cwd, capture_output=True, text=True, timeout=timeout)
+    env = dict(os.environ)
+    env["PYTHONPATH"] = cwd  # demos must import the package of the worktree, not the editable install of /repo
+    r = subprocess.run(cmd, cwd=cwd, capture_output=True, text=True, timeout=timeout, env=env)
     return r.returncode, (r.stdout + r.stderr)[-1500:], round(time.time() - t, 1)
 
 
